@@ -126,6 +126,8 @@ type Worker struct {
 	pathsSinceReset int
 	local *[][]int16
 	memo  map[string]Value
+	lastClockSec, lastClockNsec *Term
+	clockReads [][2]*Term
 }
 
 func (w *Worker) pushSib(sib []int16) {
@@ -393,7 +395,7 @@ func (w *Worker) Choose(n int) int {
 		w.pos++
 		w.taken = append(w.taken, d)
 		if d < decChooseBase {
-			panic("engine: decision mismatch (choose)")
+			panic(fmt.Sprintf("engine: decision mismatch (choose): prefix=%v pos=%d n=%d%s", w.prefix, w.pos-1, n, w.ip.where()))
 		}
 		return int(d - decChooseBase)
 	}
@@ -616,6 +618,9 @@ func (w *Worker) frameViolation(ip *Interp, o *Obj, site, what string) {
 }
 
 func (ex *Explorer) push(p []int16) {
+	if len(p) == 1 && p[0] < 16 && os.Getenv("GOSYM_DEBUGPUSH") != "" {
+		fmt.Fprintf(os.Stderr, "DEBUG push %v\n%s\n", p, debug.Stack())
+	}
 	ex.mu.Lock()
 	ex.work = append(ex.work, p)
 	ex.mu.Unlock()
@@ -768,6 +773,7 @@ func (w *Worker) runPath(prefix []int16) {
 	w.lastModel = nil
 	w.sched = nil
 	w.memo = nil
+	w.lastClockSec, w.lastClockNsec, w.clockReads = nil, nil, nil
 	mark := len(ip.journal)
 	ip.Steps = 0
 	ip.depth = 0
